@@ -301,6 +301,10 @@ def gen_spec(rng, tmpl, opts=None):
     if rng.random() < opts.get("p_extra", 0.2):
         n = rng.choice([1, 2, 4, rng.randint(1, 40), 255])
         extra = bytes(rng.choice([0, 0, 1, 0xff, rng.getrandbits(8)]) for _ in range(n))
+        if rng.random() < 0.3:
+            # isolated zeros (each one doubles in size when the message is zero-coded), zeros only, no zeros at all
+            n = rng.choice([6, 7, 8, 11, 12, 16, 24])
+            extra = rng.choice([bytes([0, 7] * n)[:n], bytes([7, 0] * n)[:n], bytes(n), bytes([9] * n)])
     packet_id = rng.choice([0, 1, 2, 2 ** 31, 2 ** 32 - 1, rng.getrandbits(32), rng.randint(1, 100000)])
     return {"name": tmpl.name, "flags": flags, "packet_id": packet_id, "acks": acks, "extra": extra,
             "blocks": blocks, "fill": fill, "fill_mixed": bool(fill and opts.get("fill_mixed"))}
